@@ -150,3 +150,265 @@ theorem joinComma_inj : ∀ {l m : List Str}, (∀ x ∈ l, LabelOK x) → (∀ 
     rw [h1, this]
 
 end Thanos.CacheKey
+
+/-! ### the matcher text reads back (`unrender`) when values are escaped -/
+
+namespace Thanos.CacheKey
+
+theorem unquoteBody_quoteMin : ∀ (v : Str) (fuel : Nat) (acc rest : Str), (quoteMin v).length + 1 ≤ fuel →
+    unquoteBody fuel acc (quoteMin v ++ '"' :: rest) = some (acc.reverse ++ v, rest)
+  | [], fuel, acc, rest, h => by
+    cases fuel with
+    | zero => simp at h
+    | succ f => simp [quoteMin, unquoteBody]
+  | c :: v, fuel, acc, rest, h => by
+    cases fuel with
+    | zero => simp at h
+    | succ f =>
+      by_cases hq : c = '"'
+      · subst hq
+        have hl : (quoteMin v).length + 1 ≤ f := by simp [quoteMin] at h; omega
+        simp only [quoteMin, true_or, if_true, List.cons_append]
+        rw [unquoteBody]
+        simp only [show ('\\' = '"') = False by decide, if_false, if_true]
+        simp only [show ('"' = 'a') = False by decide, show ('"' = 'b') = False by decide, show ('"' = 'f') = False by decide,
+          show ('"' = 'n') = False by decide, show ('"' = 'r') = False by decide, show ('"' = 't') = False by decide,
+          show ('"' = 'v') = False by decide, show ('"' = '\\') = False by decide, if_false, if_true]
+        rw [unquoteBody_quoteMin v f _ rest hl]
+        simp
+      · by_cases hb : c = '\\'
+        · subst hb
+          have hl : (quoteMin v).length + 1 ≤ f := by simp [quoteMin] at h; omega
+          simp only [quoteMin, or_true, if_true, List.cons_append]
+          rw [unquoteBody]
+          simp only [show ('\\' = '"') = False by decide, if_false, if_true]
+          simp only [show ('\\' = 'a') = False by decide, show ('\\' = 'b') = False by decide, show ('\\' = 'f') = False by decide,
+            show ('\\' = 'n') = False by decide, show ('\\' = 'r') = False by decide, show ('\\' = 't') = False by decide,
+            show ('\\' = 'v') = False by decide, if_false, if_true]
+          rw [unquoteBody_quoteMin v f _ rest hl]
+          simp
+        · have hl : (quoteMin v).length + 1 ≤ f := by simp [quoteMin, hq, hb] at h; omega
+          simp only [quoteMin, hq, hb, or_self, if_false, List.cons_append]
+          rw [unquoteBody.eq_def]
+          simp only [hq, hb, if_false]
+          rw [unquoteBody_quoteMin v f _ rest hl]
+          simp
+end Thanos.CacheKey
+
+namespace Thanos.CacheKey
+
+theorem span_loop_ident (rest : Str) (hr : ∀ c r, rest = c :: r → isIdentChar c = false) :
+    ∀ (n acc : Str), (∀ c ∈ n, isIdentChar c = true) →
+      List.span.loop isIdentChar (n ++ rest) acc = (acc.reverse ++ n, rest)
+  | [], acc, _ => by
+    cases rest with
+    | nil => simp [List.span.loop]
+    | cons c r => simp [List.span.loop, hr c r rfl]
+  | c :: n, acc, hn => by
+    have hc := hn c (by simp)
+    simp only [List.cons_append, List.span.loop, hc, if_true]
+    rw [span_loop_ident rest hr n (c :: acc) (fun x hx => hn x (List.mem_cons_of_mem _ hx))]
+    simp
+
+theorem span_ident (n rest : Str) (hn : ∀ c ∈ n, isIdentChar c = true)
+    (hr : ∀ c r, rest = c :: r → isIdentChar c = false) : (n ++ rest).span isIdentChar = (n, rest) := by
+  unfold List.span
+  rw [span_loop_ident rest hr n [] hn]
+  simp
+
+theorem unrenderMatcher_render (m : Matcher) (hn : ∀ c ∈ m.name, isIdentChar c = true) (ho : m.op < 4) (rest : Str) :
+    unrenderMatcher (m.name ++ (opText m.op ++ '"' :: (quoteMin m.value ++ '"' :: rest))) = some (m, rest) := by
+  obtain ⟨name, op, value⟩ := m
+  simp only at hn ho ⊢
+  have hq : ∀ fuel, (quoteMin value).length + 1 ≤ fuel →
+      unquoteBody fuel [] (quoteMin value ++ '"' :: rest) = some (value, rest) := by
+    intro fuel h
+    simpa using unquoteBody_quoteMin value fuel [] rest h
+  have key : ∀ (o : Str) (c0 : Char) (o' : Str), o = c0 :: o' → isIdentChar c0 = false → c0 ≠ '"' →
+      (name ++ (o ++ '"' :: (quoteMin value ++ '"' :: rest))).span isIdentChar = (name, o ++ '"' :: (quoteMin value ++ '"' :: rest)) ∧
+      ∀ r, name ++ (o ++ '"' :: (quoteMin value ++ '"' :: rest)) ≠ '"' :: r := by
+    intro o c0 o' ho' hc0 hne
+    subst ho'
+    refine ⟨span_ident name _ hn (fun c r h => by cases h; exact hc0), ?_⟩
+    intro r h
+    cases name with
+    | nil => simp at h; exact hne h.1
+    | cons c n =>
+      simp at h
+      have := hn c (by simp)
+      rw [h.1] at this
+      exact absurd this (by decide)
+  unfold unrenderMatcher
+  match op, ho with
+  | 0, _ =>
+    obtain ⟨hs, hf⟩ := key ['='] '=' [] rfl (by decide) (by decide)
+    split
+    · rename_i r heq; exact absurd heq (hf r)
+    · simp only [opText, List.cons_append, List.nil_append] at hs ⊢
+      simp [hs, bind, Option.bind]
+      rw [hq _ (by omega)]
+  | 1, _ =>
+    obtain ⟨hs, hf⟩ := key ['!', '='] '!' ['='] rfl (by decide) (by decide)
+    split
+    · rename_i r heq; exact absurd heq (hf r)
+    · simp only [opText, List.cons_append, List.nil_append] at hs ⊢
+      simp [hs, bind, Option.bind]
+      rw [hq _ (by omega)]
+  | 2, _ =>
+    obtain ⟨hs, hf⟩ := key ['=', '~'] '=' ['~'] rfl (by decide) (by decide)
+    split
+    · rename_i r heq; exact absurd heq (hf r)
+    · simp only [opText, List.cons_append, List.nil_append] at hs ⊢
+      simp [hs, bind, Option.bind]
+      rw [hq _ (by omega)]
+  | 3, _ =>
+    obtain ⟨hs, hf⟩ := key ['!', '~'] '!' ['~'] rfl (by decide) (by decide)
+    split
+    · rename_i r heq; exact absurd heq (hf r)
+    · simp only [opText, List.cons_append, List.nil_append] at hs ⊢
+      simp [hs, bind, Option.bind]
+      rw [hq _ (by omega)]
+end Thanos.CacheKey
+
+namespace Thanos.CacheKey
+
+/-- a matcher whose name is written verbatim (a legacy identifier) and whose operator exists -/
+def Matcher.Plain (m : Matcher) : Prop := (∀ c ∈ m.name, isIdentChar c = true) ∧ m.op < 4
+
+def renderM (m : Matcher) : Str := m.name ++ opText m.op ++ '"' :: quoteMin m.value ++ ['"']
+def renderS (ms : List Matcher) : Str := '[' :: joinSp (ms.map renderM) ++ [']']
+
+theorem renderM_append (m : Matcher) (y : Str) :
+    renderM m ++ y = m.name ++ (opText m.op ++ '"' :: (quoteMin m.value ++ '"' :: y)) := by
+  simp [renderM, List.append_assoc]
+
+theorem renderM_head (m : Matcher) (h : m.Plain) (y r : Str) : renderM m ++ y ≠ ']' :: r := by
+  rw [renderM_append]
+  intro e
+  obtain ⟨name, op, value⟩ := m
+  obtain ⟨hn, ho⟩ := h
+  simp only at hn ho e
+  cases name with
+  | nil =>
+    match op, ho with
+    | 0, _ => simp [opText] at e
+    | 1, _ => simp [opText] at e
+    | 2, _ => simp [opText] at e
+    | 3, _ => simp [opText] at e
+  | cons c n =>
+    simp at e
+    have := hn c (by simp)
+    rw [e.1] at this
+    exact absurd this (by decide)
+
+theorem unrenderSet_render : ∀ (ms : List Matcher) (fuel : Nat) (rest : Str), (∀ m ∈ ms, m.Plain) → ms.length + 1 ≤ fuel →
+    unrenderSet fuel (joinSp (ms.map renderM) ++ ']' :: rest) = some (ms, rest)
+  | [], fuel, rest, _, hf => by
+    cases fuel with
+    | zero => simp at hf
+    | succ f => simp [joinSp, unrenderSet]
+  | [m], fuel, rest, hp, hf => by
+    cases fuel with
+    | zero => simp at hf
+    | succ f =>
+      have hm := hp m (by simp)
+      simp only [List.map, joinSp]
+      rw [unrenderSet.eq_def]
+      split
+      · simp at *
+      · rename_i r _ heq
+        exact absurd heq (renderM_head m hm _ r)
+      · rename_i s f' hff _
+        rw [renderM_append, unrenderMatcher_render m hm.1 hm.2]
+        rfl
+  | m :: m' :: l, fuel, rest, hp, hf => by
+    cases fuel with
+    | zero => simp at hf
+    | succ f =>
+      have hm := hp m (by simp)
+      have ih := unrenderSet_render (m' :: l) f rest (fun x hx => hp x (List.mem_cons_of_mem _ hx)) (by simp at hf ⊢; omega)
+      simp only [List.map, joinSp] at ih ⊢
+      rw [unrenderSet.eq_def]
+      split
+      · simp at *
+      · rename_i r _ heq
+        rw [List.append_assoc] at heq
+        exact absurd heq (renderM_head m hm _ r)
+      · rename_i s f' hff _
+        rw [List.append_assoc, renderM_append, unrenderMatcher_render m hm.1 hm.2]
+        simp only [List.cons_append]
+        injection hff with hff
+        subst hff
+        rw [ih]
+        simp
+end Thanos.CacheKey
+
+namespace Thanos.CacheKey
+
+theorem length_le_joinSp (f : α → Str) (hf : ∀ a, 1 ≤ (f a).length) :
+    ∀ l : List α, l.length ≤ (joinSp (l.map f)).length
+  | [] => by simp [joinSp]
+  | [a] => by simpa [joinSp] using hf a
+  | a :: b :: l => by
+    have := length_le_joinSp f hf (b :: l)
+    have := hf a
+    simp only [List.map, joinSp, List.length_append, List.length_cons] at *
+    omega
+
+theorem renderM_length (m : Matcher) : 1 ≤ (renderM m).length := by simp [renderM]; omega
+theorem renderS_length (ms : List Matcher) : 1 ≤ (renderS ms).length := by simp [renderS]
+
+theorem renderS_append (ms : List Matcher) (y : Str) :
+    renderS ms ++ y = '[' :: (joinSp (ms.map renderM) ++ ']' :: y) := by
+  simp [renderS, List.append_assoc]
+
+theorem unrenderSet_renderS (ms : List Matcher) (hp : ∀ m ∈ ms, m.Plain) (y : Str) :
+    unrenderSet ((joinSp (ms.map renderM) ++ ']' :: y).length + 1) (joinSp (ms.map renderM) ++ ']' :: y) = some (ms, y) := by
+  apply unrenderSet_render ms _ y hp
+  have := length_le_joinSp renderM renderM_length ms
+  simp only [List.length_append, List.length_cons]
+  omega
+
+theorem unrenderSets_render : ∀ (sets : List (List Matcher)) (fuel : Nat) (rest : Str),
+    (∀ ms ∈ sets, ∀ m ∈ ms, m.Plain) → sets.length + 1 ≤ fuel →
+    unrenderSets fuel (joinSp (sets.map renderS) ++ ']' :: rest) = some (sets, rest)
+  | [], fuel, rest, _, hf => by
+    cases fuel with
+    | zero => simp at hf
+    | succ f => simp [joinSp, unrenderSets]
+  | [ms], fuel, rest, hp, hf => by
+    cases fuel with
+    | zero => simp at hf
+    | succ f =>
+      simp only [List.map, joinSp]
+      rw [renderS_append, unrenderSets, unrenderSet_renderS ms (hp ms (by simp))]
+      rfl
+  | ms :: ms' :: l, fuel, rest, hp, hf => by
+    cases fuel with
+    | zero => simp at hf
+    | succ f =>
+      have ih := unrenderSets_render (ms' :: l) f rest (fun x hx => hp x (List.mem_cons_of_mem _ hx)) (by simp at hf ⊢; omega)
+      simp only [List.map, joinSp] at ih ⊢
+      rw [List.append_assoc, renderS_append, unrenderSets, unrenderSet_renderS ms (hp ms (by simp))]
+      simp only [List.cons_append]
+      rw [ih]
+      simp
+
+/-- **the rendering hypothesis is satisfiable by every escaping renderer**: for all matcher sets
+    with verbatim names, the text written with `quoteMin` (escape `"` and `\`) reads back -/
+theorem rendered_quoteMin (sets : List (List Matcher)) (hp : ∀ ms ∈ sets, ∀ m ∈ ms, m.Plain) :
+    Rendered (renderWith quoteMin sets) sets := by
+  have hS : (fun ms : List Matcher => '[' :: joinSp (ms.map fun m => m.name ++ opText m.op ++ '"' :: quoteMin m.value ++ ['"']) ++ [']']) = renderS := by
+    funext ms
+    have : (fun m : Matcher => m.name ++ opText m.op ++ '"' :: quoteMin m.value ++ ['"']) = renderM := by
+      funext m; rfl
+    rw [this]; rfl
+  have h : renderWith quoteMin sets = '[' :: (joinSp (sets.map renderS) ++ ']' :: []) := by
+    unfold renderWith
+    simp only [hS]
+    rfl
+  unfold Rendered
+  rw [h, unrender]
+  have := length_le_joinSp renderS renderS_length sets
+  rw [unrenderSets_render sets _ [] hp (by simp only [List.length_append, List.length_cons]; omega)]
+end Thanos.CacheKey
